@@ -315,7 +315,7 @@ def judge(ctx: core.Ctx, case: dict[str, Any]) -> None:
     effects = {t: assign_effects(src) for t, src in sources.items()}
     # a macro body is isolated at run time but lies lexically inside whatever blocks surround its definition: a name bound by an
     # enclosing with / for is "inside a block binding that name" in the property's (lexical) sense although the globals answer it
-    has_macro = any(re.search(r"\{%-?\s*macro\b", s) for s in sources.values())
+    has_macro = any(re.search(r"(?:\{%-?|\n)\s*macro\b", s) for s in sources.values())  # (tag form, or a line of a liquid tag)
     lexically_bound = block_bound_names(sources) if has_macro else set()
     n_partial_calls = sum(len(re.findall(r"\b(?:include|render)\s+['\"]", s)) for s in sources.values())
     globals_hit = 0
